@@ -135,6 +135,12 @@ def check_add_candle(repo, rep):
                   "never a second candle with a stored timestamp; timestamps stay strictly increasing")
     t0 = 1_600_000_000_000 // MIN * MIN
     cases = [("empty", 0, 0), ("newer", 3, 3), ("newer-gap", 3, 5), ("same-as-last", 3, 2), ("older-stored-1", 3, 1), ("older-stored-0", 3, 0)]
+    # stores around and beyond the 20-candle look-back: every stored position must be replaceable, an older timestamp that is
+    # not stored (before the first candle) must be ignored without raising
+    for n_ in (2, 19, 20, 21, 22, 26):
+        for k_ in sorted({0, 1, 2, n_ - 3, n_ - 2} & set(range(n_ - 1))):
+            cases.append((f"older-stored|n={n_}|k={k_}", n_, k_))
+        cases.append((f"older-absent|n={n_}", n_, -2))
     for name, n, k in cases:
         def mk(dec):
             it = Interp(repo, stubs=W.base_stubs(), decisions=dec)
@@ -151,12 +157,16 @@ def check_add_candle(repo, rep):
             ts = [int(r[0].const_value()) for r in rows]
             probs = []
             exp_len = n + 1 if name in ("empty", "newer", "newer-gap") else n
+            absent = name.startswith("older-absent")
             if len(rows) != exp_len:
                 probs.append(f"{len(rows)} stored candles, expected {exp_len}")
             if any(b <= a for a, b in zip(ts, ts[1:])):
                 probs.append(f"timestamps not strictly increasing: {[(t - t0) // MIN for t in ts]}")
             tgt = [r for r in rows if int(r[0].const_value()) == t0 + k * MIN]
-            if len(tgt) != 1:
+            if absent:
+                if tgt:
+                    probs.append("a candle older than everything stored was inserted")
+            elif len(tgt) != 1:
                 probs.append(f"{len(tgt)} stored candles carry the new candle's timestamp")
             elif not all(x.same(y) for x, y in zip(tgt[0], out.interp.cnd.items)):
                 probs.append("the stored candle with that timestamp is not the new candle")
@@ -167,7 +177,7 @@ def check_add_candle(repo, rep):
             if probs:
                 rep.violation(rid, f"add_candle|{name}", f"add_candle case {name}: " + "; ".join(probs))
             rep.instance(rid, name, {"case": name, "stored_minutes": [(t - t0) // MIN for t in ts]})
-    rep.floor(rid, 6)
+    rep.floor(rid, 30)
 
 
 def check_add_multiple(repo, rep):
